@@ -22,7 +22,7 @@ open RsslVerif.Lemmas.MacroHang RsslVerif.Lemmas.MacroTame RsslVerif.Lemmas.Macr
 /-- the arguments whose parameter stands next to `##` in the replacement list contain no enabled macro name and are
 not empty -/
 def PasteArgsOK (env : List Entry) (body : List PTok) (args : List (List PTok)) : Prop :=
-  ∀ i ∈ pasteParams [] body, ∀ a, args[i]? = some a → OnlyDisabled env a ∧ nonEmptyB a = true
+  ∀ i ∈ pasteParams none body, ∀ a, args[i]? = some a → OnlyDisabled env a ∧ nonEmptyB a = true
 
 inductive TameP : List Entry → List PTok → List PTok → Prop
   | nil (env : List Entry) : TameP env [] []
